@@ -642,6 +642,102 @@ def gen_okkhorregex(repo):
     L.append("end Riti.Gen")
     return "OkkhorRegex.lean", "\n".join(L) + "\n"
 
+def gen_emojicon(repo):
+    """the bundled tables of the emojicon crate as riti's build of it serves them: emoticons.rs (emoticon → emoji), the English
+    name table that `Emojicon::new` selects (emoji.rs with the crate feature `custom`, gemoji.rs without — read from lib.rs and
+    from the feature list of riti's Cargo.toml; the two files are alternatives, they are never merged) and bn_emojis.rs.
+    Rows in SOURCE order; every `HashMap` is built by `.into_iter().collect()` (a later duplicate key would replace an earlier
+    one — the Lean look-up mirrors that, and Props/EmojiTables proves that there is no duplicate)."""
+    item = "emojicon"
+    crate = find_crate(repo, "emojicon")
+    lib = strip_comments(read(f"{crate}/src/lib.rs"))
+    # ---- lib.rs: how the tables are built and queried
+    new_body = fn_body(lib, r'impl Emojicon\s*\{\s*pub fn new\s*\(\s*\)\s*->\s*Self\s*\{', item)
+    m = re.search(r'let emojis = if cfg!\(feature = "(\w+)"\)\s*\{\s*(\w+)::(\w+)\(\)\s*\}\s*else\s*\{\s*(\w+)::(\w+)\(\)\s*\};', new_body)
+    if not m: raise Fail(item, "Emojicon::new: the `if cfg!(feature = ..) { a::f() } else { b::g() }` choice of the name table not found")
+    feat, mod_on, fn_on, mod_off, fn_off = m.groups()
+    rest = new_body[:m.start()] + new_body[m.end():]
+    if not re.fullmatch(r'\s*Self\s*\{\s*emoticons:\s*emoticons::emoticons\(\),\s*emojis,?\s*\}\s*', rest):
+        raise Fail(item, f"Emojicon::new: unrecognised remainder {rest.strip()[:80]!r}")
+    for hdr, want, why in (
+            (r'pub fn get_by_emoticon\s*\([^{]*\{', r'\s*self\.emoticons\.get\(emoticon\)\.map\(\|i\| \*i\)\s*', "get_by_emoticon"),
+            (r'pub fn get_by_name\s*\([^{]*\{', r'\s*self\.emojis\.get\(name\)\.map\(\|v\| v\.iter\(\)\.map\(\|s\| \*s\)\)\s*', "get_by_name"),
+            (r'impl BengaliEmoji\s*\{\s*pub fn new\s*\(\s*\)\s*->\s*Self\s*\{', r'\s*Self\s*\{\s*emojis:\s*bn_emojis::emojis\(\)\s*\}\s*', "BengaliEmoji::new"),
+            (r'pub fn get\s*\(&self, name: &str\)[^{]*\{', r'\s*self\.emojis\.get\(name\)\.map\(\|v\| v\.iter\(\)\.map\(\|s\| \*s\)\)\s*', "BengaliEmoji::get")):
+        body = fn_body(lib, hdr, item)
+        if not re.fullmatch(want, body): raise Fail(item, f"{why}: unrecognised body {body.strip()[:80]!r}")
+    mods = set(re.findall(r'^mod (\w+);', lib, flags=re.M))
+    for md in ("emoticons", "bn_emojis", mod_on, mod_off):
+        if md not in mods: raise Fail(item, f"lib.rs does not declare `mod {md};`")
+    # ---- which feature set riti builds the crate with
+    cargo = read(f"{repo}/Cargo.toml")
+    dep = re.search(r'^emojicon\s*=\s*(.+)$', cargo, flags=re.M)
+    if not dep: raise Fail(item, "emojicon dependency line not found in riti's Cargo.toml")
+    if dep.group(1).strip().startswith('"'): feats = []
+    else:
+        mt = re.fullmatch(r'\{(.*)\}', dep.group(1).strip())
+        if not mt: raise Fail(item, f"dependency line shape {dep.group(1)[:60]!r}")
+        mf = re.search(r'features\s*=\s*\[(.*?)\]', mt.group(1))
+        feats = re.findall(STR, mf.group(1)) if mf else []
+        if re.search(r'\b(path|git|package)\s*=', mt.group(1)): raise Fail(item, "emojicon is not taken from the registry")
+    name_mod, name_fn = (mod_on, fn_on) if feat in feats else (mod_off, fn_off)
+
+    # ---- the three table files
+    def table(mod, fn, listy):
+        src = strip_comments(read(f"{crate}/src/{mod}.rs"))
+        val = r"&'static \[&'static str\]" if listy else r"&'static str"
+        body = fn_body(src, r'pub fn ' + fn + r"\s*\(\s*\)\s*->\s*HashMap<&'static str,\s*" + val + r'>\s*\{', item)
+        declared = None
+        m1 = re.fullmatch(r'\s*let data:\s*\[\(&str,\s*(&\[&str\]|&str)\);\s*(\d+)\]\s*=\s*\[(.*)\];\s*data\.into_iter\(\)\.collect\(\)\s*', body, re.S)
+        m2 = re.fullmatch(r'\s*\[(.*)\]\s*\.into_iter\(\)\s*\.collect\(\)\s*', body, re.S)
+        if m1:
+            if (m1.group(1) == "&[&str]") != listy: raise Fail(item, f"{mod}.rs: element type of the array")
+            declared = int(m1.group(2)); inner = m1.group(3)
+        elif m2: inner = m2.group(1)
+        else: raise Fail(item, f"{mod}.rs: `[rows].into_iter().collect()` shape not recognised")
+        row_re = (r'\(\s*' + STR + r'\s*,\s*&\[((?:\s*' + STR + r'\s*,?)*)\s*\]\s*\)') if listy else (r'\(\s*' + STR + r'\s*,\s*' + STR + r'\s*\)')
+        rows = []
+        pos = 0
+        for rm in re.finditer(row_re, inner):
+            if inner[pos:rm.start()].strip(" \t\r\n,") != "": raise Fail(item, f"{mod}.rs: unrecognised text between rows: {inner[pos:rm.start()].strip()[:60]!r}")
+            pos = rm.end()
+            k = unescape_rust(rm.group(1), item)
+            if listy: v = [unescape_rust(x, item) for x in re.findall(STR, rm.group(2))]
+            else: v = unescape_rust(rm.group(2), item)
+            rows.append((k, v))
+        if inner[pos:].strip(" \t\r\n,") != "": raise Fail(item, f"{mod}.rs: unrecognised text after the last row: {inner[pos:].strip()[:60]!r}")
+        if declared is not None and declared != len(rows): raise Fail(item, f"{mod}.rs: array declared with {declared} rows, {len(rows)} read")
+        if not rows: raise Fail(item, f"{mod}.rs: no rows")
+        return rows
+    emoticons = table("emoticons", "emoticons", False)
+    names = table(name_mod, name_fn, True)
+    bengali = table("bn_emojis", "emojis", True)
+
+    CH = 100
+    def emit(L, name, ty, rows, fmt, doc):
+        n = (len(rows) + CH - 1) // CH
+        for i in range(n):
+            L.append(f"def {name}_{i} : {ty} := [")
+            L.append(",\n".join("  " + fmt(r) for r in rows[i * CH:(i + 1) * CH]))
+            L.append("]")
+        L.append(f"/-- {doc} ({len(rows)} rows, source order; split into chunks of {CH} rows for the elaborator) -/")
+        L.append(f"def {name} : {ty} := " + " ++ (".join(f"{name}_{i}" for i in range(n)) + ")" * (n - 1))
+    L = [f"/- GENERATED by tools/translate.py from the emojicon crate ({os.path.basename(crate)}: src/lib.rs, src/emoticons.rs, src/{name_mod}.rs, src/bn_emojis.rs) and the feature list of riti's Cargo.toml — do not edit -/",
+         "namespace Riti.Gen",
+         "/-- the file `Emojicon::new` takes the English names from, and the crate features riti asks for -/",
+         f"def emojiNameSource : String := {lean_str(name_mod + '.rs')}",
+         f"def emojiconFeatures : List String := [{', '.join(lean_str(x) for x in feats)}]"]
+    emit(L, "emoticonRows", "List (List Nat × List Nat)", emoticons, lambda r: f"({cps(r[0])}, {cps(r[1])})",
+         "`emoticons::emoticons()`: (emoticon, emoji) as code points")
+    emit(L, "emojiNameRows", "List (List Nat × List (List Nat))", names, lambda r: f"({cps(r[0])}, [{', '.join(cps(x) for x in r[1])}])",
+         f"`{name_mod}::{name_fn}()`: (English name, emoji list as `get_by_name` iterates it) as code points")
+    emit(L, "bengaliNameRows", "List (List Nat × List (List Nat))", bengali, lambda r: f"({cps(r[0])}, [{', '.join(cps(x) for x in r[1])}])",
+         "`bn_emojis::emojis()`: (Bengali name, emoji list as `BengaliEmoji::get` iterates it) as code points")
+    L.append("end Riti.Gen")
+    text = "\n".join(L) + "\n"
+    if len(text.encode("utf-8")) > 1_500_000: raise Fail(item, f"generated file too large ({len(text.encode('utf-8'))} bytes)")
+    return "EmojiTables.lean", text
+
 def gen_panicsites(repo):
     """whether the two `Regex::new(..)` calls on the suggestion paths tolerate a compile failure"""
     item = "panicsites"
@@ -763,7 +859,7 @@ def main():
         if r2: outs.append(r2)
     else:
         failed.append(("layoutkeys", "depends on keycodes"))
-    for item, f in (("charclasses", gen_charclasses), ("rankcmp", gen_rankcmp), ("okkhor", gen_okkhor), ("okkhorregex", gen_okkhorregex), ("panicsites", gen_panicsites), ("logicconsts", gen_logicconsts)):
+    for item, f in (("charclasses", gen_charclasses), ("rankcmp", gen_rankcmp), ("okkhor", gen_okkhor), ("okkhorregex", gen_okkhorregex), ("panicsites", gen_panicsites), ("logicconsts", gen_logicconsts), ("emojicon", gen_emojicon)):
         r = run(item, lambda: f(a.repo))
         if r:
             outs.append(r[:2])
